@@ -23,7 +23,7 @@ CLANGXX = "clang++"
 # Strict IEEE: the oracle names an IEEE operation and the hardware must perform exactly that one.
 PLAIN_FLAGS = ["-std=c++17", "-fext-numeric-literals", "-O1", "-ffp-contract=off", "-fno-fast-math",
                "-fno-asynchronous-unwind-tables", "-w"]
-SAN_FLAGS = ["-std=c++17", "-fext-numeric-literals", "-O1", "-g1", "-fno-omit-frame-pointer", "-ffp-contract=off",
+SAN_FLAGS = ["-std=c++17", "-fext-numeric-literals", "-O0", "-g1", "-fno-omit-frame-pointer", "-ffp-contract=off",
              "-fsanitize=address,undefined", "-fno-sanitize-recover=all",
              "-D_GLIBCXX_DEBUG", "-D_GLIBCXX_ASSERTIONS", "-DVERIF_SAN=1", "-w"]
 SAN_ENV = {
@@ -225,6 +225,8 @@ def build(targets, quiet=False):
 # running monitors
 # ----------------------------------------------------------------------------------------------
 def run_dir(prop, tier):
+    if COLLECTOR is not None:
+        prop = COLLECTOR["prop"] + "-" + prop
     d = os.path.join(OUT, prop, "%s-%d" % (tier, os.getpid()))
     shutil.rmtree(d, ignore_errors=True)
     os.makedirs(d, exist_ok=True)
@@ -353,9 +355,15 @@ def match_known(prop, key):
 # ----------------------------------------------------------------------------------------------
 # verdict + evidence
 # ----------------------------------------------------------------------------------------------
+COLLECTOR = None   # when set (by C20), finished verdicts are collected instead of written/printed
+
+
 class Verdict:
     def __init__(self, prop, tier, seed):
         self.prop, self.tier, self.seed = prop, tier, seed
+        self.origin = prop
+        if COLLECTOR is not None:
+            self.prop = COLLECTOR["prop"]   # known-findings matching happens under the collecting property
         self.t0 = time.time()
         self.violations = []      # dict(key, detail)
         self.known = {}           # key -> (finding, count)
@@ -391,6 +399,9 @@ class Verdict:
                 self.inconclusive.append("%s shard %d: no summary.json (rc=%d)" % (r.name, r.shard, r.rc))
 
     def finish(self, replay_dir=None):
+        if COLLECTOR is not None:
+            COLLECTOR["verdicts"].append(self)
+            return 1 if self.violations else (2 if self.inconclusive else 0)
         wall = time.time() - self.t0
         cov = dict(self.coverage)
         cov.setdefault("evaluations", 0)
